@@ -19,7 +19,8 @@ RULE = (
 	'length class mod 16) for every encoder/decoder pair (recipient and sender, roles swapped from one length to the next) and format of '
 	'both networks incl. the delegation layout; delegation requests whose ephemeral public key begins with each of the 8 marker byte '
 	'values and 24 other values (all 256 in the thorough tier), frames whose tag, nonce and ciphertext (salt, iv, ciphertext) all begin '
-	'with the marker byte / with the same byte; plaintexts of 0, 1, 15, 16, 17, 1024 bytes with corruptions x formats (Symbol '
+	'with the marker byte / with the same byte; encode-encode(-encode)-decode orders for every encoder of both networks (distinct result '
+	'objects, earlier results unchanged by later calls, each decodes to its own plaintext); plaintexts of 0, 1, 15, 16, 17, 1024 bytes with corruptions x formats (Symbol '
 	'current / deprecated hex / delegation; NEM current / deprecated CBC) x both networks; for Symbol every single-byte corruption of '
 	'marker, tag, nonce and ciphertext of short messages (sampled positions for long ones, all in the thorough tier), wrong-recipient and '
 	'wrong-peer decodes; truncated and malformed messages; PKCS7 and hex helpers on boundary inputs; shipped derive/cipher vectors. A case '
@@ -523,6 +524,62 @@ class Checker:
 			'try_decode_nem', {'secret': secret, 'peer': peer_public_key, 'type': message_type, 'message': message}, answer, required,
 			f'try_decode_nem {hx(secret)} {hx(peer_public_key)} {message_type} {hx(message)} {table} {cbc}', what, informative)
 		return answer
+
+
+def _encode_order(checker, network, method, secret, peer_secret, clears):
+	"""Several encode calls in a row on one encoder before anything is decoded: the results are distinct objects, an earlier
+	result is not changed by a later call, and each decodes (recipient and sender) to its own plaintext."""
+	from .c07 import ref_public_key
+	ctx = checker.ctx
+	public, peer_public = ref_public_key(network, secret), ref_public_key(network, peer_secret)
+	encoder = checker.encoders[network](checker.key_pair(network, secret))
+	args = {'network': network, 'method': method, 'secret': secret, 'peer_secret': peer_secret, 'clears': list(clears)}
+
+	def snapshot(result):
+		if 'nem' == network:
+			return (result.message_type.value, bytes(result.message))
+		return (None, bytes(result))
+
+	results, snapshots = [], []
+	for clear in clears:
+		if 'delegation' == method:
+			result = type(encoder).encode_persistent_harvesting_delegation(
+				checker.public_key_class(peer_public), checker.key_pair('symbol', clear[:32]), checker.key_pair('symbol', clear[32:]))
+		else:
+			result = getattr(encoder, method)(checker.public_key_class(peer_public), clear)
+		results.append(result)
+		snapshots.append(snapshot(result))
+		for index, (earlier, taken) in enumerate(zip(results[:-1], snapshots[:-1])):
+			if 'nem' == network and earlier is result:
+				ctx.fail('property', f'{network} {method}: call #{len(results)} returned the very object call #{index + 1} returned', {
+					'op': 'encode_order', 'args': args})
+			if snapshot(earlier) != taken:
+				ctx.fail('property', f'{network} {method}: the message returned by call #{index + 1} changed when call #{len(results)} was made', {
+					'op': 'encode_order', 'args': args, 'implementation': hx(snapshot(earlier)[1]), 'required': hx(taken[1])})
+	# decode in encoding order and then the first once more, using the objects as they are now
+	for index in list(range(len(clears))) + [0]:
+		kind, current = snapshot(results[index])
+		decoded = f'ok 1 {hx(clears[index])}'
+		what = f'{network} {method}: message #{index + 1} of {len(clears)} encoded in a row does not decode to its own plaintext'
+		if 'nem' == network:
+			checker.try_decode_nem(peer_secret, public, kind, current, decoded, what + ' (recipient)')
+			checker.try_decode_nem(secret, peer_public, kind, current, decoded, what + ' (sender)')
+		elif 'delegation' == method:
+			checker.try_decode_symbol('current', peer_secret, public, current, decoded, what + ' (node)')
+		else:
+			variant = 'deprecated' if 'encode_deprecated' == method else 'current'
+			checker.try_decode_symbol(variant, peer_secret, public, current, decoded, what + ' (recipient)')
+			checker.try_decode_symbol(variant, secret, peer_public, current, decoded, what + ' (sender)')
+	ctx.count(f'order:{network}:{method}:{len(clears)}-in-a-row')
+
+
+def _order_round(checker, rng):
+	for network, methods in (('symbol', ('encode', 'encode_deprecated', 'delegation')), ('nem', ('encode', 'encode_deprecated'))):
+		for method in methods:
+			for count in (2, 3):
+				sizes = [64] * count if 'delegation' == method else [rng.choice([0, 1, 16, 36, 100]) for _ in range(count)]
+				_encode_order(checker, network, method, rng.bytes_(32), rng.bytes_(32), [rng.bytes_(size) for size in sizes])
+			checker.settle()
 
 
 def _with_random(values):
@@ -1059,6 +1116,8 @@ def run(ctx):
 	for _ in range(ctx.scale(4, 25)):
 		_delegation_round(checker, rng, everything)
 		checker.settle()
+	for _ in range(ctx.scale(1, 6)):
+		_order_round(checker, rng)
 	_delegation_first_bytes(checker, rng, 'thorough' == ctx.tier)
 	for _ in range(ctx.scale(1, 8)):
 		_boundary_round(checker, rng)
@@ -1084,6 +1143,8 @@ def replay(ctx, payload):
 		checker.shared_key(args['network'], args['secret'], args['public_key'])
 	elif 'shared_key_deprecated' == name:
 		checker.shared_key_deprecated(args['secret'], args['public_key'], args['salt'])
+	elif 'encode_order' == name:
+		_encode_order(checker, args['network'], args['method'], args['secret'], args['peer_secret'], args['clears'])
 	elif 'try_decode' == name:
 		checker.try_decode_symbol(args['variant'], args['secret'], args['peer'], args['message'], required, payload['what'])
 	elif 'try_decode_nem' == name:
